@@ -348,6 +348,11 @@ func (e *Enc) applyContract(f *frame, con *Contract, display string, args []Val,
 			}
 			e.setVar("G|"+g, e.freshT("hvg_"+g, SBV64))
 		}
+		// locations named next to "*" are forgotten even if they are stable
+		// (stable fields survive havoc-all: only contracts that name them change them)
+		for _, m := range con.Modifies {
+			e.havocLoc(env, m, con)
+		}
 	} else {
 		if con.ModHeap {
 			e.havocAll("modifies heap of " + display)
